@@ -77,7 +77,7 @@ ONLY = {
     "C01": r"oh\.compose$",
     "C02": r"(oh\.tensor|hg\.coproduct|ic\.tensor|ff\.tensor|lax\.tensor|lax\.tensor_assign|law\.tensor_\w+:eq)$",
     "C03": r"law\.(assoc|id_left|id_right|interchange|twist_natural|twist_twist|hexagon|hexagon_mirror)$",
-    "C04": r"(oh\.dagger|oh\.spider|oh\.half_spider|lax\.dagger|lax\.spider|law\.dagger_\w+(:eq)?|law\.spider_fusion|law\.lax_spider_fusion|law\.strict_dagger|law\.identity_is_spider|law\.twist_is_spider)$",
+    "C04": r"(oh\.dagger|oh\.spider|oh\.half_spider|lax\.dagger|lax\.spider|law\.dagger_\w+(:eq)?|law\.spider_fusion|law\.lax_spider_fusion|law\.strict_dagger|law\.strict_twist|law\.strict_identity|law\.lax_dagger_comp3|lax\.twist|lax\.identity|oh\.twist|oh\.identity|law\.identity_is_spider|law\.twist_is_spider)$",
     "C05": r"(lax\.edit|lax\.quot|hg\.new|oh\.new|ff\.new|ic\.new_\w+|ic\.from_semifinite_\w+|ic\.ops_new|oh\.\w+|lax\.(from_strict|to_strict|identity|spider|singleton|tensor|compose|lax_compose|twist|dagger|source|target)|functor\.\w+|lax\.functor\.\w+|lax\.optic\.\w+)$",
     "C06": r"ff\.",
     "C07": r"prim\.",
